@@ -79,6 +79,9 @@ def spec_for(option, d):
                           vals={'cli': 'r3-cli', 'env': 'r3-env', 'profile': 'r3-prof', 'default': 'r3-def', 'builtin': '__missing__'}, observe=lambda r: r['kw'].get('region', '__missing__'), typ=str),
         'b2.key-id': dict(backend='b2', cli=['--key-id', 'KBCLI'], env={'B2_KEY_ID': 'KBENV'}, profile=('key-id', 'KBPROF'), default=('key-id', 'KBDEF'),
                           vals={'cli': 'KBCLI', 'env': 'KBENV', 'profile': 'KBPROF', 'default': 'KBDEF', 'builtin': '__missing__'}, observe=lambda r: r['kw'].get('key_id', '__missing__'), typ=str),
+        # the same KIND of text from every source (digits): whatever it is coerced to, it must be the same whichever source supplied it
+        'b2.application-key': dict(backend='b2', cli=['--application-key', '7001'], env={'B2_APPLICATION_KEY': '7002'}, profile=('application-key', '7003'), default=('application-key', '7004'),
+                                   vals={'cli': 7001, 'env': 7002, 'profile': 7003, 'default': 7004, 'builtin': '__missing__'}, observe=lambda r: r['kw'].get('application_key', '__missing__'), typ=int),
         'pc.token': dict(backend='pc', cli=['--token', 'tcli'], env={'PC_TOKEN': 'tenv'}, profile=('token', 'tprof'), default=('token', 'tdef'),
                          vals={'cli': 'tcli', 'env': 'tenv', 'profile': 'tprof', 'default': 'tdef', 'builtin': '__missing__'}, observe=lambda r: r['kw'].get('token', '__missing__'), typ=str),
         'pc.port': dict(backend='pc', cli=['--port', '1001'], env={'PC_PORT': '1002'}, profile=('port', 1003), default=('port', '1004'),
